@@ -84,6 +84,7 @@ func effKey(es []eff) string {
 
 // elementSides finds the apply-side and revert-side element functions: DBStore methods taking consensus.ApplyUpdate / RevertUpdate.
 func elementSides(c *Ctx) (apply, revert *ir.Func) {
+	effectProg = c.P
 	for _, f := range c.P.MethodsOf("chain", "DBStore") {
 		if exported(f) || f.Type.Params.NumFields() != 1 {
 			continue
@@ -99,7 +100,9 @@ func elementSides(c *Ctx) (apply, revert *ir.Func) {
 	if apply == nil || revert == nil {
 		ir.Fail("apply-side / revert-side element functions of DBStore not found")
 	}
-	return
+	// helpers (a diff classifier, shared per-kind bodies) expanded; the element effects themselves stay calls
+	vs := c.P.Views("chain", ir.ExpandOpt{Key: "element-effects", Stop: func(fn *types.Func) bool { return effectRole(fn) != "" }})
+	return vs.Of(apply), vs.Of(revert)
 }
 
 // classify the role of a DBStore effect method by its signature.
@@ -136,6 +139,11 @@ func effectRole(fn *types.Func) string {
 		}
 	case 2:
 		if isID(ps.At(0).Type()) && isU64(ps.At(1).Type()) && sig.Results().Len() == 0 {
+			// recording and removing an expiration have the same signature: the one that appends the id to
+			// the stored list records it
+			if f := effectProg.FuncOf(fn); f != nil && len(idAppends(f)) > 0 {
+				return "putExp"
+			}
 			return "delExp"
 		}
 	case 3:
@@ -144,6 +152,115 @@ func effectRole(fn *types.Func) string {
 		}
 	}
 	return ""
+}
+
+// effectProg is the program effectRole resolves helper bodies in (set by getStoreRoles' users before analysis).
+var effectProg *ir.Prog
+
+// idAppends lists, for an expiration helper, the `append` calls one of whose
+// operands is the helper's id parameter sliced (`id[:]`), with the order they
+// establish: "true" when the id goes to the end of the stored list (the apply
+// order), "false" when it goes to the front (the revert order).
+type idAppend struct {
+	call  *ast.CallExpr
+	order string
+}
+
+func idAppends(f *ir.Func) []idAppend {
+	if f.Type.Params == nil || len(f.Type.Params.List) == 0 || len(f.Type.Params.List[0].Names) == 0 {
+		return nil
+	}
+	id := f.Info().Defs[f.Type.Params.List[0].Names[0]]
+	isID := func(e ast.Expr) bool {
+		se, ok := ast.Unparen(e).(*ast.SliceExpr)
+		return ok && f.ObjOf(se.X) == id && id != nil
+	}
+	var out []idAppend
+	ir.Walk(f.Body, false, func(n ast.Node) {
+		call, ok := n.(*ast.CallExpr)
+		if !ok || len(call.Args) != 2 {
+			return
+		}
+		if fn, ok := ast.Unparen(call.Fun).(*ast.Ident); !ok || fn.Name != "append" {
+			return
+		}
+		switch {
+		case isID(call.Args[1]):
+			out = append(out, idAppend{call, "true"})
+		case isID(call.Args[0]):
+			out = append(out, idAppend{call, "false"})
+		}
+	})
+	return out
+}
+
+// expirationOrder: the order a call of a recording helper establishes —
+// "true" (appended, the apply order), "false" (prepended, the revert order) or
+// "?" — from the helper's body: a helper with a bool parameter chooses between
+// its two appends by `if <param>`, one without has a single append.
+func expirationOrder(p *ir.Prog, caller *ir.Func, call ir.Call) string {
+	h := p.FuncOf(call.Fn)
+	if h == nil {
+		return "?"
+	}
+	apps := idAppends(h)
+	var flagParam types.Object
+	var flagIdx = -1
+	i := 0
+	for _, fld := range h.Type.Params.List {
+		for _, nm := range fld.Names {
+			if b, ok := h.Info().TypeOf(fld.Type).Underlying().(*types.Basic); ok && b.Kind() == types.Bool {
+				flagParam, flagIdx = h.Info().Defs[nm], i
+			}
+			i++
+		}
+	}
+	if flagParam == nil {
+		if len(apps) == 1 {
+			return apps[0].order
+		}
+		return "?"
+	}
+	if flagIdx >= len(call.Expr.Args) {
+		return "?"
+	}
+	tv, ok := caller.Info().Types[call.Expr.Args[flagIdx]]
+	if !ok || tv.Value == nil {
+		return "?"
+	}
+	want := tv.Value.String() == "true"
+	res := "?"
+	ir.Walk(h.Body, false, func(n ast.Node) {
+		ifs, ok := n.(*ast.IfStmt)
+		if !ok {
+			return
+		}
+		cond, neg := ast.Unparen(ifs.Cond), false
+		if u, ok := cond.(*ast.UnaryExpr); ok && u.Op == token.NOT {
+			cond, neg = ast.Unparen(u.X), true
+		}
+		if h.ObjOf(cond) != flagParam {
+			return
+		}
+		var arm ast.Node = ifs.Body
+		if want == neg {
+			arm = ifs.Else
+		}
+		if arm == nil {
+			return
+		}
+		n1 := 0
+		for _, a := range apps {
+			if containsNode(arm, a.call) {
+				res = a.order
+				n1++
+			}
+		}
+		if n1 != 1 {
+			res = "?"
+		}
+	})
+	return res
 }
 
 type diffLoop struct {
@@ -158,6 +275,7 @@ type diffLoop struct {
 }
 
 func analyseSide(c *Ctx, f *ir.Func) map[string]*diffLoop {
+	effectProg = c.P
 	g := f.Graph()
 	out := map[string]*diffLoop{}
 	for _, n := range g.Nodes {
@@ -254,9 +372,7 @@ func analyseSide(c *Ctx, f *ir.Func) map[string]*diffLoop {
 					e.who = who(call.Expr.Args[0])
 				case "putExp":
 					e.who = who(call.Expr.Args[1])
-					if id, ok := ast.Unparen(call.Expr.Args[2]).(*ast.Ident); ok {
-						e.flag = id.Name
-					}
+					e.flag = expirationOrder(c.P, f, call)
 				case "delExp":
 					e.who = who(call.Expr.Args[1])
 				}
@@ -460,19 +576,41 @@ func shape(f *ir.Func, e ast.Expr) string {
 	return s
 }
 
+// funcRef: e names a declared function or is a method value `x.m`; returns that function.
+func funcRef(f *ir.Func, e ast.Expr) *types.Func {
+	switch t := ast.Unparen(e).(type) {
+	case *ast.Ident:
+		fn, _ := f.Info().Uses[t].(*types.Func)
+		return fn
+	case *ast.SelectorExpr:
+		fn, _ := f.Info().Uses[t.Sel].(*types.Func)
+		return fn
+	}
+	return nil
+}
+
 func c02r3(c *Ctx) {
-	af, rf := elementSides(c)
+	av, rv := elementSides(c)
+	af, rf := av.Base, rv.Base // the bucket-level writes are read as written (the bucket helpers are not expanded)
 	keyOf := func(f *ir.Func) string {
 		res := ""
 		for _, call := range f.Calls(false) {
 			if call.Fn == nil || call.Fn.Name() != "ForEachTreeNode" || len(call.Expr.Args) != 1 {
 				continue
 			}
-			lit, ok := ast.Unparen(call.Expr.Args[0]).(*ast.FuncLit)
-			if !ok {
+			// the visitor: a literal, or a method value / function name (then its declaration is the visitor)
+			var lf *ir.Func
+			var ftype *ast.FuncType
+			if lit, ok := ast.Unparen(call.Expr.Args[0]).(*ast.FuncLit); ok {
+				lf, ftype = c.P.LitOf(lit), lit.Type
+			} else if fn := funcRef(f, call.Expr.Args[0]); fn != nil {
+				if lf = c.P.FuncOf(fn); lf != nil {
+					ftype = lf.Type
+				}
+			}
+			if lf == nil || ftype == nil {
 				continue
 			}
-			lf := c.P.LitOf(lit)
 			for _, c2 := range lf.Calls(false) {
 				if c2.Fn != nil && c2.Fn.Name() == "putRaw" && len(c2.Expr.Args) == 2 {
 					// key function and bucket
@@ -482,7 +620,7 @@ func c02r3(c *Ctx) {
 							bucket = ir.ExprString(rcv.Args[0])
 						}
 						var params []string
-						for _, fld := range lit.Type.Params.List {
+						for _, fld := range ftype.Params.List {
 							for _, nm := range fld.Names {
 								params = append(params, nm.Name)
 							}
